@@ -44,8 +44,7 @@
      all entries whose class depends on c leave the cache.  [ev = false] gives the code before
      the fix (no Provides.changed), used for C01_stale_cache_refuted_without_eviction.
    * Omitted: ``Interface`` itself as a declared interface (the root special case of
-     _classImplements_ordered), Implements/Declaration objects as arguments of declaration
-     calls (only interfaces), super() objects, old-style __implemented__, builtin types,
+     Implements objects (live class specifications) as arguments of declaration calls, super() objects, old-style __implemented__, builtin types,
      declarations on a metaclass during the history, moduleProvides. *)
 From Coq Require Import List Arith Bool.
 Import ListNotations.
@@ -53,7 +52,10 @@ From ZI Require Import Lib.Util.
 From ZI Require Export Model.DeclOps.
 
 Record crec := mkC { c_bases : list cls; c_decl : list iface; c_inherit : bool; c_cprov : list iface;
-                     c_meta : option (list iface); c_builtin : bool }.
+                     c_meta : option (list iface); c_builtin : bool;
+                     c_plain : list iface }.   (* the elements of ``declared`` that are interfaces themselves: the *only*
+                                                  forms do not normalise, a Declaration argument stays one opaque element
+                                                  (its interfaces are in c_decl; ``iface.extends(b)`` never holds for it) *)
 (* the interfaces implementedBy(type(cls)) names directly *)
 Definition meta_direct (r : crec) : list iface := match c_meta r with Some l => l | None => [] end.
 Record irec := mkI { i_cls : cls; i_live : bool; i_prov : option (list iface) }.
@@ -105,18 +107,15 @@ Definition evict (ev : bool) (cs : list crec) (c : cls) (ca : list (ckey * list 
 Definition set_class (ev : bool) (st : state) (c : cls) (r' : crec) : state :=
   mkS (upd (classes st) c r') (insts st) (evict ev (classes st) c (cache st)).
 
-(* the elision filter of _classImplements_ordered / the strip of _add_interfaces_to_cls *)
-Definition keepnew (fl : list iface) (l : list iface) : list iface :=
-  filter (fun x => negb (mem_nat x fl)) l.
-
 (* declarations.py:_classImplements_ordered *)
 Definition class_ordered (ev : bool) (g : igraph) (st : state) (c : cls) (before after : list iface) : state :=
   match nth_error (classes st) c with
   | None => st
   | Some r =>
       let fl := cflat g st c in
-      let nd := dedup (keepnew fl before ++ c_decl r ++ keepnew fl after) in
-      set_class ev st c (mkC (c_bases r) nd (c_inherit r) (c_cprov r) (c_meta r) (c_builtin r))
+      let nd := dedup (celide fl (c_decl r) before ++ c_decl r ++ celide fl (c_decl r) after) in
+      let np := dedup (celide fl (c_decl r) before ++ c_plain r ++ celide fl (c_decl r) after) in
+      set_class ev st c (mkC (c_bases r) nd (c_inherit r) (c_cprov r) (c_meta r) (c_builtin r) np)
   end.
 
 (* declarations.py:classImplements — before/after split by strict ``extends`` *)
@@ -124,17 +123,25 @@ Definition class_implements (ev : bool) (g : igraph) (st : state) (c : cls) (l :
   match nth_error (classes st) c with
   | None => st
   | Some r =>
-      let isbefore x := existsb (fun b => ext_strict g x b) (c_decl r) in
+      let isbefore x := existsb (fun b => ext_strict g x b) (c_plain r) in
       class_ordered ev g st c (filter isbefore l) (filter (fun x => negb (isbefore x)) l)
   end.
 
 (* declarations.py:classImplementsOnly — declared=(), inherit=None, __bases__=() first *)
-Definition class_only (ev : bool) (g : igraph) (st : state) (c : cls) (l : list iface) : state :=
+Definition set_plain (st : state) (c : cls) (pl : list iface) : state :=
+  match nth_error (classes st) c with
+  | None => st
+  | Some r => mkS (upd (classes st) c (mkC (c_bases r) (c_decl r) (c_inherit r) (c_cprov r) (c_meta r) (c_builtin r) pl))
+                  (insts st) (cache st)
+  end.
+
+(* [l]: the interfaces the (un-normalised) arguments name; [pl]: those given as interfaces *)
+Definition class_only (ev : bool) (g : igraph) (st : state) (c : cls) (l pl : list iface) : state :=
   match nth_error (classes st) c with
   | None => st
   | Some r =>
-      let st1 := set_class ev st c (mkC (c_bases r) [] false (c_cprov r) (c_meta r) (c_builtin r)) in
-      class_ordered ev g st1 c l []
+      let st1 := set_class ev st c (mkC (c_bases r) [] false (c_cprov r) (c_meta r) (c_builtin r) []) in
+      set_plain (class_ordered ev g st1 c l []) c (dedup pl)
   end.
 
 (* the Provides factory: InstanceDeclarations.get(key) or ProvidesClass(cls, *interfaces) *)
@@ -167,7 +174,7 @@ Definition direct_cls (g : igraph) (st : state) (c : cls) (args : list iface) : 
   match nth_error (classes st) c with
   | Some r => if c_builtin r then st   (* TypeError: cannot set attribute of immutable type *)
               else mkS (upd (classes st) c (mkC (c_bases r) (c_decl r) (c_inherit r)
-                                                (keepnew (closure g (meta_direct r)) args) (c_meta r) (c_builtin r)))
+                                                (keepnew (closure g (meta_direct r)) args) (c_meta r) (c_builtin r) (c_plain r)))
                        (insts st) (cache st)
   | None => st
   end.
@@ -221,6 +228,8 @@ Definition narg (st : state) (a : arg) : list iface :=
   | AProvidedBy t => dedup (spec_direct st t)
   end.
 Definition nargs (st : state) (l : list arg) : list iface := flat_map (narg st) l.
+Definition plain_args (l : list arg) : list iface :=
+  flat_map (fun a => match a with AI i => [i] | _ => [] end) l.
 
 Definition step (ev : bool) (g : igraph) (st : state) (o : op) : state :=
   match o with
@@ -228,7 +237,8 @@ Definition step (ev : bool) (g : igraph) (st : state) (o : op) : state :=
       let n := length (classes st) in
       mkS (classes st ++ [mkC (dedup (filter (fun b => Nat.ltb b n) bs))
                               (match old with Some l => l | None => [] end)
-                              (match old with Some _ => false | None => true end) [] m bi]) (insts st) (cache st)
+                              (match old with Some _ => false | None => true end) [] m bi
+                              (match old with Some l => l | None => [] end)]) (insts st) (cache st)
   | NewInstance c =>
       if Nat.ltb c (length (classes st))
       then mkS (classes st) (insts st ++ [mkI c true None]) (cache st)
@@ -240,8 +250,8 @@ Definition step (ev : bool) (g : igraph) (st : state) (o : op) : state :=
       end
   | Implementer c l => class_implements ev g st c (nargs st l)
   | ClassImplements c l => class_implements ev g st c (nargs st l)
-  | ImplementerOnly c l => class_only ev g st c (nargs st l)
-  | ClassImplementsOnly c l => class_only ev g st c (nargs st l)
+  | ImplementerOnly c l => class_only ev g st c (nargs st l) (plain_args l)
+  | ClassImplementsOnly c l => class_only ev g st c (nargs st l) (plain_args l)
   | ClassImplementsFirst c x => class_ordered ev g st c [x] []
   | DirectlyProvides t l => directly g st t (nargs st l)
   | Provider t l => directly g st t (nargs st l)
@@ -257,11 +267,11 @@ Definition run (ev : bool) (g : igraph) (ops : list op) : state := fold_left (st
 Definition provided (g : igraph) (st : state) (t : target) : list iface := closure g (spec_direct st t).
 (* I.providedBy(t): I in providedBy(t)._implied *)
 Definition i_providedBy (g : igraph) (st : state) (t : target) (i : iface) : bool :=
-  existsb (fun y => ext g y i) (spec_direct st t).
+  Nat.eqb i 0 || existsb (fun y => ext g y i) (spec_direct st t).   (* every specification implies Interface *)
 (* implementedBy(c).flattened() and I.implementedBy(c) *)
 Definition implemented (g : igraph) (st : state) (c : cls) : list iface := cflat g st c.
 Definition i_implementedBy (g : igraph) (st : state) (c : cls) (i : iface) : bool :=
-  existsb (fun y => ext g y i) (cdirect st c).
+  Nat.eqb i 0 || existsb (fun y => ext g y i) (cdirect st c).
 
 (* noLongerProvides raises ValueError when the interface is still provided afterwards
    (the declaration has been replaced by then); [st'] is the state after the step *)
